@@ -60,7 +60,33 @@ def instr_oracle(prog, obs, impl):
         objs = {v: impl.env.get(v) for v, _ in o['out']}
         out = dict(o['out'])
         try:
-            if op['op'] == 'newc' and op.get('init'):
+            if op['op'] == 'solutionc':
+                # "Add <x unit of solute>, ... to <V unit> of <solvent container>.": the volume taken from the solvent container
+                # and what each named solute gained beyond the share that came with that volume
+                new, s0, s1 = out[op['out']], dumps[op['solventv']], out[op['osolv']]
+                line = objs[op['out']].instructions
+                m = re.match(r"Add (.*) to " + AMOUNT + r" of .+\.$", line)
+                if not m:
+                    fails.append((i, f"cannot read the create_solution instruction {line!r}"))
+                else:
+                    taken = (s0['vol'] - s1['vol']) * F(1, 10**6)
+                    if split_unit(m.group(3))[1] != 'L':
+                        fails.append((i, f"{line!r}: the solvent is stated in {m.group(3)}"))
+                    else:
+                        check_amount(F(Decimal(m.group(2))), m.group(3), taken, "the volume taken from the solvent container by create_solution", fails, i)
+                    for part in m.group(1).split(', '):
+                        pm = re.match(AMOUNT + r" of (.+)$", part)
+                        if not pm:
+                            fails.append((i, f"cannot read the amount in {part!r}"))
+                            continue
+                        sd = byname[pm.group(3)]
+                        b = {'Solid': 'g', 'Liquid': 'L', 'Enzyme': 'U'}[sd['kind']]
+                        added = new['cont'].get(sd['id'], F(0)) - (s0['cont'].get(sd['id'], F(0)) - s1['cont'].get(sd['id'], F(0)))
+                        if split_unit(pm.group(2))[1] != b:
+                            fails.append((i, f"{part!r}: unit {pm.group(2)} for a {sd['kind']}"))
+                        else:
+                            check_amount(F(Decimal(pm.group(1))), pm.group(2), histcheck.amount_in(sd, added, b), f"{sd['name']} added by create_solution", fails, i)
+            if (op['op'] == 'newc' and op.get('init')) or op['op'] == 'solution':
                 c = objs[op['out']]
                 line = c.instructions
                 d = out[op['out']]
@@ -296,6 +322,14 @@ def run(chk, gate, status):
     import copy
     sub = copy.copy(chk); sub.tier = 'quick'
     for g in C12m.make_cases(sub)[:(15 if not full else 60)]:
+        f = instr_oracle(g.prog(), g.obs, g.impl)
+        nlines += sum(1 for o in g.obs if o['ok'])
+        if f:
+            nfail += 1
+            if nfail <= 3:
+                chk.violation(f[0][1], {'program': g.prog(), 'failures': [list(x) for x in f[:5]]})
+    from props import C05 as C05m
+    for g in C05m.make_cases(sub)[:(30 if not full else 70)]:      # create_solution with a substance or a container as the solvent
         f = instr_oracle(g.prog(), g.obs, g.impl)
         nlines += sum(1 for o in g.obs if o['ok'])
         if f:
